@@ -16,8 +16,12 @@ from vf import catalogue as cat
 from vf.common import ref_width_concrete as rw
 
 CHILD = [lambda: Text("hello brave new world"), lambda: Text("中文 wide 字 text"), lambda: Text("á́b zero\nsecond line"),
-         lambda: cat._table(box=box.ASCII, cols=2, rows=1), lambda: Panel(Text("inner 中"), box=box.ASCII)]
-CHILD_MIN = [1, 2, 1, 3 + 2 * 4, 4]
+         lambda: cat._table(box=box.ASCII, cols=2, rows=1), lambda: Panel(Text("inner 中"), box=box.ASCII),
+         # a child that does not respect the width it is given (40 cells on one line): the frame must still be a rectangle, with the
+         # child's line cropped to the inner width
+         lambda: Text("0123456789" * 4, no_wrap=True, overflow="ignore")]
+CHILD_MIN = [1, 2, 1, 3 + 2 * 4, 4, 1]
+OVERFLOWING = 5
 BOXES = [box.ROUNDED, box.ASCII, box.DOUBLE, box.HEAVY]
 TITLES = [None, "T", "a long title 中 here", Text("Tj", justify="left"), Text("styled 中", style="bold", justify="center")]
 F8 = ["rich/panel.py:Panel.__rich_console__", "rich/padding.py:Padding.__rich_console__", "rich/align.py:Align.__rich_console__",
@@ -27,7 +31,10 @@ F8 = ["rich/panel.py:Panel.__rich_console__", "rich/padding.py:Padding.__rich_co
 
 
 def _child_lines(c, k, width):
-    return [l.rstrip() for l in cat.render_lines(c, CHILD[k](), width)]
+    lines = cat.render_lines(c, CHILD[k](), width)
+    if k == OVERFLOWING:
+        lines = [l[:max(width, 0)] for l in lines]      # ASCII: one cell per character
+    return [l.rstrip() for l in lines]
 
 
 def _strip_tail(lines):
@@ -87,7 +94,7 @@ def _panel_body(e, k, nboxes, wmax):
 
 def _mk_panel(k, tiers, timeout, nboxes, wmax):
     @symx("C08-panel-child%d-w%d" % (k, wmax), tiers=tiers, timeout=timeout, kind="C+S", functions=F8,
-          bounds="Panel around child %d of 5 (ascii / wide / zero-width+multi-line text, ASCII table, nested panel) x %d boxes x 3 "
+          bounds="Panel around child %d of 6 (ascii / wide / zero-width+multi-line text, ASCII table, nested panel, a 40-cell text that ignores the width) x %d boxes x 3 "
                  "titles (none, short, longer than many widths) x title_align x expand x padding left/right 0..2, top=bottom 0..1 x "
                  "available width from the structural minimum to %d (solver-enumerated, native): all lines equally wide (== width "
                  "when expanding), border cells are the box's, exactly the requested padding, and the child's own lines (rendered "
@@ -103,7 +110,7 @@ for _k in range(len(CHILD)):
 
 
 @symx("C08-padding", timeout=1500, kind="C+S", functions=F8, tiers=("thorough",),
-      bounds="Padding around the 5 children x top/right/bottom/left in 0..2 x expand x available width from the structural minimum to "
+      bounds="Padding around the 6 children (five that fit, one 40-cell no_wrap/overflow='ignore' text that does not) x top/right/bottom/left in 0..2 x expand x available width from the structural minimum to "
              "40: equal line widths (== width when expanding), exactly the requested blank lines and side cells, child lines unchanged")
 def c08_padding(e):
     return _padding_body(e, 2, 40)
